@@ -257,6 +257,7 @@ fn boundary_times(c: &Timing, radius: i32) -> Vec<f32> {
 
 pub fn run(run: Run) -> ! {
     let cfgs = configs();
+    let radius: i32 = if run.is_thorough() { 4096 } else { 1024 };
     let mut acc = par_fold(
         cfgs.len(),
         Acc::default,
@@ -266,7 +267,7 @@ pub fn run(run: Run) -> ! {
             check_metadata(c, rank, acc);
             let ts = c.real();
             let probe = probe_timeline(c);
-            for t in boundary_times(c, 64) {
+            for t in boundary_times(c, radius) {
                 check_time(c, &ts, t, rank | t.to_bits() as u64, acc);
                 check_probe(c, &ts, &probe, t, rank | t.to_bits() as u64, acc);
             }
@@ -330,7 +331,7 @@ pub fn run(run: Run) -> ! {
     cov.insert("traces_validated_against_impl".into(), json!(acc.exact + acc.windowed));
     cov.insert("evaluations".into(), json!(acc.evals + acc.probe_evals));
     cov.insert("distinct_nontrivial".into(), json!(acc.exact + acc.windowed));
-    cov.insert("rule".into(), json!("288 timing configurations (cycle in {1/4,1,3,0.3,1e-3,1e3} x delay in {0,1/2,0.1,7} x repeat in {None,Times 0,1,2,7,Infinite} x reverse) x {every f32 within +-64 ulp of every phase boundary delay+j*cycle/2 and of the delay, a 1/16 grid up to 20, 1e6, 1e30, f32::MAX, MIN_POSITIVE, negative times}; thorough additionally sweeps EVERY finite f32 bit pattern (both signs) for 64 configurations. Oracle RefTimeScale: position in [0,1]; NotStarted iff t<delay (exact); when the arithmetic is exact (power-of-two cycle, exact t-delay) the phase, position and loop flags must equal the reference bit for bit; otherwise agreement with the reference at some t' within +-3 ulp(t) (position tolerance stated per case); when 3 ulp(t) >= cycle/4 only boundedness and far-from-end terminal consistency are asserted (counted as bounded_only). Metadata: delay/cycle/repeat exact, duration within 1.5 ulp of delay+cycle*(repeats+1), infinite iff Infinite; a linear 0->1 probe through Timeline::update must show exactly the position. non-trivial = evaluations compared with the reference (exact + windowed)"));
+    cov.insert("rule".into(), json!("288 timing configurations (cycle in {1/4,1,3,0.3,1e-3,1e3} x delay in {0,1/2,0.1,7} x repeat in {None,Times 0,1,2,7,Infinite} x reverse) x {every f32 within +-1024 (thorough 4096) ulp of every phase boundary delay+j*cycle/2 and of the delay, a 1/16 grid up to 20, 1e6, 1e30, f32::MAX, MIN_POSITIVE, negative times}; thorough additionally sweeps EVERY finite f32 bit pattern (both signs) for 64 configurations. Oracle RefTimeScale: position in [0,1]; NotStarted iff t<delay (exact); when the arithmetic is exact (power-of-two cycle, exact t-delay) the phase, position and loop flags must equal the reference bit for bit; otherwise agreement with the reference at some t' within +-3 ulp(t) (position tolerance stated per case); when 3 ulp(t) >= cycle/4 only boundedness and far-from-end terminal consistency are asserted (counted as bounded_only). Metadata: delay/cycle/repeat exact, duration within 1.5 ulp of delay+cycle*(repeats+1), infinite iff Infinite; a linear 0->1 probe through Timeline::update must show exactly the position. non-trivial = evaluations compared with the reference (exact + windowed)"));
     cov.insert("exhaustive".into(), json!(true));
     cov.insert("compared_exact".into(), json!(acc.exact));
     cov.insert("compared_with_jitter_window".into(), json!(acc.windowed));
